@@ -126,8 +126,16 @@ def workers_for(o):
 
 def _batch(args):
     tier, lo, hi = args
-    from harness.world import World, exec_arn
     cs = cases(tier)[lo:hi]
+    res = []
+    while len(res) < len(cs):
+        res.extend(_one_world(cs[len(res):]))
+    return res
+
+def _one_world(cs):
+    """Run the cases one after the other in one World.  If one of them never ends (runaway guard) the results up to and
+    including it are returned (its own result is None = never terminal) and the caller starts a new World for the rest."""
+    from harness.world import World, exec_arn
     res = []
     # every machine gets its own worker queue so that attempt counters never mix between executions
     got = {}
@@ -139,21 +147,25 @@ def _batch(args):
             sc["workers"]["f%d" % idx] = workers_for(o)["f"]
         sc["starts"].append({"machine": "m%d" % idx, "name": "e", "input": INPUTS[ii], "after_quiet": True})
     w = World(sc)
-    w.run(max_steps=1000000)
+    w.run(max_steps=1000000, runaway=3000)
+    ndone = len(cs) if not w.runaway else max(w.api_pos, 1)
     for n in w.notes:
         det = n["body"]["detail"]
         if det["status"] != "RUNNING":
             got.setdefault(det["executionArn"], []).append(
                 [det["status"], json.loads(det["output"]) if det.get("output") is not None else None, det.get("error"), det.get("cause")])
     recs = w.executions()
-    for idx in range(len(cs)):
+    for idx in range(ndone):
         arn = exec_arn("m%d" % idx, "e")
         r = recs.get(arn)
         got[arn + "#rec"] = None if r is None else [r.get("status"), r.get("output"), r.get("error")]
     w.close()
-    for idx in range(len(cs)):
+    for idx in range(ndone):
         arn = exec_arn("m%d" % idx, "e")
-        res.append((got.get(arn), got.get(arn + "#rec")))
+        if w.runaway and idx == ndone - 1:
+            res.append((None, got.get(arn + "#rec")))
+        else:
+            res.append((got.get(arn), got.get(arn + "#rec")))
     return res
 
 def ref_run(names, ii, o, inband=False):
